@@ -15,7 +15,7 @@ pub fn prop() -> Prop {
     Prop {
         id: "C13",
         level: "exploration",
-        rule: "(1) all sequences up to depth d of array/string operations over three names: declare an array (length 0-3) or a string (0-3 characters drawn from 1-, 2-, 3- and 4-byte code points), alias, nest, read at the boundary indices, write, lengte, pass to a function that writes, each followed by a dump of every name through every alias, rendered as one program and compared with the reference interpreter; (2) the complete index sweep: every length 0..6 x every index -(len+2)..(len+2) x {get, set, set with a wrong-typed value, failed access followed by a re-read of every element} on arrays and on strings of every character-width mix; every value type as index and as stored value; (2b) length ladders: strings and arrays of every length around each power of two up to 257, strings in every pattern 'ASCII with one 2-, 3- or 4-byte character at position p' and all-wide: every index read from the front and the back in a loop, writes around the wide character and at both ends dumped through an alias; (3) self-consistency where the model is silent (an element of a string replaced by zero or several characters, 16 strings x every index x 9 replacements x a second replacement): the printed text, lengte and character-by-character reading from both ends must describe the same string and the first index outside it must be refused. Non-trivial = the program performs at least one indexed access and is defined by the model; distinct = distinct texts",
+        rule: "(1) all sequences up to depth d of array/string operations over three names: declare an array (length 0-3) or a string (0-3 characters drawn from 1-, 2-, 3- and 4-byte code points), alias, nest, read at the boundary indices, write, lengte, pass to a function that writes, each followed by a dump of every name through every alias, rendered as one program and compared with the reference interpreter; (2) the complete index sweep: every length 0..6 x every index -(len+2)..(len+2) x {get, set, set with a wrong-typed value, failed access followed by a re-read of every element} on arrays and on strings of every character-width mix; every value type as index and as stored value; (2c) strings through a function one after the other (pairs of different strings of the same length class, wide characters before the indices); the sweep, the ladders, this family and the self-consistency family run TWICE, with the shadow heap and without it (freed memory is then really reused); (2b) length ladders: strings and arrays of every length around each power of two up to 257, strings in every pattern 'ASCII with one 2-, 3- or 4-byte character at position p' and all-wide: every index read from the front and the back in a loop, writes around the wide character and at both ends dumped through an alias; (3) self-consistency where the model is silent (an element of a string replaced by zero or several characters, 16 strings x every index x 9 replacements x a second replacement): the printed text, lengte and character-by-character reading from both ends must describe the same string and the first index outside it must be refused. Non-trivial = the program performs at least one indexed access and is defined by the model; distinct = distinct texts",
         assumptions: &["string aliasing and non-character replacement are unspecified (U8) and excluded", "reference semantics of arrays and code-point indexing of strings as in refint (DESIGN 4.2)"],
         run,
         replay,
@@ -23,8 +23,19 @@ pub fn prop() -> Prop {
     }
 }
 
+thread_local! {
+    /// The shadow heap quarantines freed boxes, so an address is never used twice under it. The second pass of
+    /// the check runs WITHOUT it: freed memory is really reused, and whatever the implementation remembers by
+    /// address shows.
+    static LEDGER: std::cell::Cell<bool> = std::cell::Cell::new(true);
+}
+
+fn ledger() -> bool {
+    LEDGER.with(|c| c.get())
+}
+
 fn opts() -> RunOpts {
-    RunOpts { budget: Some(50_000), ledger: true, trace: false, render: true }
+    RunOpts { budget: Some(50_000), ledger: ledger(), trace: false, render: true }
 }
 
 const NAMES: [&str; 3] = ["x", "y", "z"];
@@ -421,7 +432,7 @@ fn length_ladder(sh: &mut Shard) {
             let _ = &read_all[3];
             sh.begin(&|| format!("length ladder: {} characters, wide character at {wide_at}", len));
             sh.count("family:length-ladder");
-            if let Some(r) = differential(sh, "length-ladder", &read_all, RunOpts { budget: Some(2_000_000), ledger: true, trace: false, render: true }) {
+            if let Some(r) = differential(sh, "length-ladder", &read_all, RunOpts { budget: Some(2_000_000), ledger: ledger(), trace: false, render: true }) {
                 if !matches!(r.model.end, End::Unspec(_) | End::Diverge) {
                     sh.nontrivial(&(len, text));
                 }
@@ -439,7 +450,7 @@ fn length_ladder(sh: &mut Shard) {
                 }
                 prog.push(es(calln("lengte", vec![id("s")])));
                 sh.count("family:length-ladder");
-                differential(sh, "length-ladder", &prog, RunOpts { budget: Some(2_000_000), ledger: true, trace: false, render: true });
+                differential(sh, "length-ladder", &prog, RunOpts { budget: Some(2_000_000), ledger: ledger(), trace: false, render: true });
             }
         }
         // arrays: read every element in a loop, write at both ends and in the middle, grow by nesting
@@ -466,8 +477,52 @@ fn length_ladder(sh: &mut Shard) {
             ];
             sh.begin(&|| format!("length ladder: array of {len}"));
             sh.count("family:length-ladder");
-            if differential(sh, "length-ladder", &prog, RunOpts { budget: Some(2_000_000), ledger: true, trace: false, render: true }).is_some() {
+            if differential(sh, "length-ladder", &prog, RunOpts { budget: Some(2_000_000), ledger: ledger(), trace: false, render: true }).is_some() {
                 sh.nontrivial(&("array", len));
+            }
+        }
+    }
+}
+
+/// Strings through a function, one after the other: `teken(s1, i)` then `teken(s2, j)` then `teken(s1, k)` for
+/// pairs of DIFFERENT strings of the same length class (so that the second lands where the first was freed),
+/// with wide characters before the indices; literals, so each call works on a fresh copy that dies at the return.
+fn strings_one_after_the_other(sh: &mut Shard) {
+    let mk = |len: usize, wide_at: Option<usize>, wide: char, shift: usize| -> String { (0..len).map(|i| if Some(i) == wide_at { wide } else { (b'a' + ((i + shift) % 26) as u8) as char }).collect() };
+    for len in [6usize, 12, 30, 45, 70] {
+        let subjects: Vec<String> = vec![
+            mk(len, None, 'x', 0),
+            mk(len, None, 'x', 3),
+            mk(len, Some(0), '😀', 0),
+            mk(len, Some(1), 'é', 1),
+            mk(len, Some(len / 2), '€', 2),
+            mk(len, Some(len - 2), '😀', 4),
+        ];
+        for s1 in &subjects {
+            for s2 in &subjects {
+                if s1 == s2 {
+                    continue;
+                }
+                for (i, j) in [(1usize, 1usize), (2, 4), (len / 2 + 1, len / 2 + 2), (len - 1, len - 1), (3, len - 1), (len - 1, 0)] {
+                    if !sh.mine() {
+                        continue;
+                    }
+                    let prog = vec![
+                        es(func("teken", &["s", "i"], vec![Stmt::Return(index(id("s"), id("i")))])),
+                        let_("a", calln("teken", vec![string(s1), int(i as i64)])),
+                        let_("b", calln("teken", vec![string(s2), int(j as i64)])),
+                        let_("c", calln("teken", vec![string(s1), int(j as i64)])),
+                        let_("d", calln("teken", vec![string(s2), int_lit(-(i as i64))])),
+                        es(array(vec![id("a"), id("b"), id("c"), id("d")])),
+                    ];
+                    sh.begin(&|| printer::program(&prog));
+                    sh.count("family:one-after-the-other");
+                    if let Some(r) = differential(sh, "sequences", &prog, opts()) {
+                        if !matches!(r.model.end, End::Unspec(_) | End::Diverge) {
+                            sh.nontrivial(&(ledger(), printer::program(&prog)));
+                        }
+                    }
+                }
             }
         }
     }
@@ -475,6 +530,14 @@ fn length_ladder(sh: &mut Shard) {
 
 fn run(sh: &mut Shard) {
     let tier = sh.cfg.tier;
+    // second pass first: the cheap families again without the shadow heap (real address reuse)
+    LEDGER.with(|c| c.set(false));
+    strings_one_after_the_other(sh);
+    length_ladder(sh);
+    sweep(sh);
+    self_consistency(sh);
+    LEDGER.with(|c| c.set(true));
+    strings_one_after_the_other(sh);
     // a literal evaluated again is pristine, whatever its earlier value went through
     for prog in crate::slices::literal_pristine_programs() {
         if !sh.mine() {
@@ -506,7 +569,7 @@ fn replay(sh: &mut Shard, case: &Value) {
 }
 
 fn vacuity(m: &Merged) -> Option<String> {
-    for fam in ["sweep", "sweep-types", "length-ladder", "self-consistency", "sequences"] {
+    for fam in ["sweep", "sweep-types", "one-after-the-other", "length-ladder", "self-consistency", "sequences"] {
         if m.counters.get(&format!("family:{fam}")).copied().unwrap_or(0) < 100 {
             return Some(format!("family {fam} produced fewer than 100 cases"));
         }
